@@ -131,6 +131,21 @@ theorem C04_status_roundtrip (st : St) (h0 : HMap) (hutf : Utf8.valid st.message
         · subst k3; simp
         · simp [k1, k2, k3]
 
+/-- The same with the message given as text: for **every list of Unicode scalar values** (Lean
+`Char`s — controls, `%`, non-ASCII, astral planes, empty), its UTF-8 encoding is a message that
+survives, with no validity hypothesis left. -/
+theorem C04_status_roundtrip_unicode (code : Code) (text : List Char) (details : Bytes) (md h0 : HMap)
+    (hm0 : HMap.getAll GRPC_MESSAGE h0 = []) (hd0 : HMap.getAll GRPC_STATUS_DETAILS h0 = []) :
+    ∃ h, addHeader .fixed
+        { code := code, message := Utf8.encodeString (text.map Char.toNat), details := details, metadata := md } h0 = .ok h ∧
+      fromHeaderMap .fixed h = some (.status
+        { code := code, message := Utf8.encodeString (text.map Char.toNat), details := details,
+          metadata := stripStatus h }) := by
+  obtain ⟨h, h1, h2, _⟩ := C04_status_roundtrip
+    { code := code, message := Utf8.encodeString (text.map Char.toNat), details := details, metadata := md }
+    h0 (Utf8.valid_encodeChars text) hm0 hd0
+  exact ⟨h, h1, h2⟩
+
 /-- On the pinned tree as found the round trip fails for a status whose metadata carries a
 `grpc-status-details-bin` entry while its details are empty: the entry is written to the wire
 and the peer reads it as the details.  Witness: `details = ""`, metadata
